@@ -118,12 +118,46 @@ DivFnd(v) ==
              ELSE IF v.code = 204 THEN "noquery" ELSE "other"
   IN IF out # r.out \/ (v.called /\ (v.req # r.req \/ v.opt # r.opt \/ v.activeOnly # r.activeOnly)) THEN {"fnd"} ELSE {}
 
+\* ------------------------------------------------------------------ histories on a live `me` topic (real handleMeta)
+\* kind = "set" ({set tags}), "delcred" ({del what=cred}), "serveradd" (credential validated, simulated)
+CheckHist(v) ==
+  LET imm == S(v.imm)
+      stale == S(v.cachePre) # S(v.storedPre)
+      changed == UNION {SymDiff(NsTags(S(v.storedPre), ns), NsTags(S(v.storedPost), ns)) : ns \in imm}
+      n == NormalizeTags([nil |-> v.rawNil, tags |-> v.raw], v.max)
+      asksReservedChange == \E ns \in imm : NsTags(S(n.tags), ns) # NsTags(S(v.storedPre), ns)
+  IN \* a client request never adds or removes a reserved-namespace tag of the STORE
+     (IF v.kind = "set" /\ changed # {}
+      THEN {"ImmutableNsUntouchable:" \o (IF stale THEN "stale_topic_tag_cache" ELSE NsClass(changed))} ELSE {})
+     \* ... and one that does not ask for such a change is not refused for it
+     \cup (IF v.kind = "set" /\ v.code = 403 /\ ~n.nil /\ ~asksReservedChange
+           THEN {"HonestSetAccepted:" \o (IF stale THEN "stale_topic_tag_cache" ELSE "other")} ELSE {})
+     \cup (IF v.kind = "set" /\ v.code >= 400 /\ v.storedPost # v.storedPre THEN {"RejectedChangesNothing:set_tags"} ELSE {})
+     \cup (IF v.kind = "set" /\ v.code = 200 /\ ~TagsNormal(v.storedPost, v.max) THEN {"StoredTagsNormalised:set_tags"} ELSE {})
+     \* the live topic's cached tags are the stored tags (reported at the step that breaks it)
+     \cup (IF ~stale /\ S(v.cachePost) # S(v.storedPost) THEN {"TopicTagCacheMatchesStore:after_" \o v.kind} ELSE {})
+     \* deleting a credential removes its tag from the store when the validator indexes it
+     \cup (IF v.kind = "delcred" /\ v.hadCred /\ v.indexed /\ v.cred \in S(v.storedPost) THEN {"DelCredRemovesItsTag:delcred"} ELSE {})
+
+DivHist(v) ==
+  CASE v.kind = "set" ->
+         LET r == SetTags(v.cachePre, [nil |-> v.rawNil, tags |-> v.raw], S(v.imm), v.max) IN
+           IF CodeClass(v.code) # r.code \/ v.cachePost # r.tags
+              \/ (r.stored /\ v.storedPost # r.tags) \/ (~r.stored /\ v.storedPost # v.storedPre)
+           THEN {"hist_set"} ELSE {}
+    [] v.kind = "delcred" ->
+         LET r == DelCredTags(v.storedPre, v.cachePre, v.cred, v.hadCred, v.indexed)
+             code == IF v.code = 200 THEN "ok" ELSE IF v.code = 304 THEN "noaction" ELSE "other" IN
+           IF code # r.code \/ v.storedPost # r.stored \/ v.cachePost # r.cache THEN {"hist_delcred"} ELSE {}
+    [] OTHER -> {}
+
 Check(v) ==
   CASE v.op = "parse"      -> CheckParse(v)
     [] v.op = "normalize"  -> CheckNormalize(v)
     [] v.op = "restricted" -> CheckRestricted(v)
     [] v.op = "settags"    -> CheckSetTags(v)
     [] v.op = "fnd"        -> CheckFnd(v)
+    [] v.op = "hist"       -> CheckHist(v)
     [] OTHER               -> {"UnknownVector:op"}
 
 Diverge(v) ==
@@ -132,6 +166,7 @@ Diverge(v) ==
     [] v.op = "restricted" -> DivRestricted(v)
     [] v.op = "settags"    -> DivSetTags(v)
     [] v.op = "fnd"        -> DivFnd(v)
+    [] v.op = "hist"       -> DivHist(v)
     [] OTHER               -> {}
 
 Init == cur = 0 /\ bad = {} /\ div = {}
